@@ -339,6 +339,44 @@ def classify(ans):
     return ans.startswith(ALLOWED)
 
 
+LONG_RUN = 6000          # several times the interpreter's default recursion limit (1000) and a typical 4096-byte buffer
+RUN_CHARS = ["\x00", " ", "\t", ".", ",", "a", "Z", "-", "/", ":", "+", "\u00a0", "\u0660", "7"]
+
+
+def oracle_long_runs(ctx, rng):
+    """long runs (LONG_RUN characters) of every character the lexer skips or loops over — NUL (read-and-discard loop), white space,
+    '.', ',', letters, digits, separators — at the front, in the middle and at the end of a valid rendering, through every input kind
+    (str, bytes, bytearray, text stream) and strict / fuzzy / fuzzy_with_tokens: the outcome must stay inside
+    {datetime, (datetime, tokens), ParserError, OverflowError} (a loop turned into recursion shows as RecursionError), and a run of
+    NULs must not change the answer at all (NULs read from the stream are discarded)."""
+    base = "2014-05-01 08:00:00"
+    vias = ["str", "bytes", "bytearray", "stream"]
+    k = 0
+    for ch in RUN_CHARS:
+        run = ch * LONG_RUN
+        for pos, text in (("front", run + base), ("middle", "2014-05-01" + run + " 08:00:00"), ("end", base + run)):
+            for opt in ({}, {"fuzzy": True}, {"fwt": True}):
+                todo = vias if ch == "\x00" else [vias[k % 4]]
+                k += 1
+                for via in todo:
+                    c = L.Call(text, via=via, tag="long-run", **opt)
+                    ans, dt, _ = L.run_impl(c)
+                    ctx.case(("long-run", ch, pos, via, tuple(sorted(opt))), nontrivial=ans.startswith("ok "))
+                    ctx.count("long_run_calls")
+                    ctx.evaluations += 1
+                    case = c.describe()
+                    case.update({"run_char": ascii(ch), "run_length": LONG_RUN, "position": pos,
+                                 "text_repr": "%s: %r x %d around %r" % (pos, ch, LONG_RUN, base)})
+                    if not classify(ans):
+                        ctx.violation("parse() outcome outside {datetime, (datetime, tuple), ParserError, OverflowError}: %s" % ans[:80],
+                                      case, {"impl": ans})
+                    elif ch == "\x00":
+                        ref, _, _ = L.run_impl(L.Call(text.replace("\x00", ""), via=via, **opt))
+                        if ans != ref:
+                            ctx.violation("NUL characters must be ignored: the answer differs from the text without them", case,
+                                          {"impl": ans, "without_nul": ref})
+
+
 def oracle(ctx):
     from dateutil import parser as P
     rng = ctx.subrng("oracle")
@@ -476,6 +514,8 @@ def oracle(ctx):
             if got != "ok":
                 ctx.violation("default=None: %s" % got, {"text": t, "default": None})
         scaling(ctx, 0.06 if not ctx.budget(0, 1) else 0.6)
+        L.set_tz("UTC")
+        oracle_long_runs(ctx, ctx.subrng("long-runs"))
         # the two-digit-year pivot the model is given comes from the process clock (review3b F8): a wrong pivot in
         # parserinfo.__init__ is reported with a failing input
         L.set_tz("UTC")
